@@ -78,6 +78,7 @@ type c16Env struct {
 	// a second chain on which hard-fork k activates at height 3k: swept at each stage
 	hc      *c16Chain
 	hcStage int
+	ovlInst *c16Ovl
 }
 
 type c16Raw func(w *io.BinWriter) // code leaving exactly one item on the stack
@@ -1805,6 +1806,10 @@ func runC16(cmd string, args []string) error {
 				var in c16PermIn
 				json.Unmarshal(x.Input, &in)
 				env.runPermCall(co, in)
+			case "overload":
+				var in c16OvlIn
+				json.Unmarshal(x.Input, &in)
+				env.runOverload(co, in)
 			case "selfcall":
 				var in c16SelfIn
 				json.Unmarshal(x.Input, &in)
@@ -1973,6 +1978,23 @@ func runC16(cmd string, args []string) error {
 				}
 				for _, fl := range fls {
 					env.runSys(co, c16SysIn{Name: f.Name, Flags: fl, WL: wl})
+				}
+			}
+		}
+	}
+	// overloads m/1, m/2 (one safe, one not, both ABI orders) x probe x overload called x {Contract.Call, CALLT} x caller
+	// permission x flags
+	if ex && want("overload") {
+		for order := 0; order < 2; order++ {
+			for probe := 1; probe <= 3; probe++ {
+				for ar := 1; ar <= 2; ar++ {
+					for _, via := range []string{"call", "callt"} {
+						for caller := 0; caller < 3; caller++ {
+							for _, fl := range []int{15, 7, 13, 5} {
+								env.runOverload(co, c16OvlIn{Order: order, Probe: probe, Arity: ar, Via: via, Caller: caller, Flags: fl})
+							}
+						}
+					}
 				}
 			}
 		}
@@ -2149,7 +2171,7 @@ func runC16(cmd string, args []string) error {
 	co.extra["exhaustive"] = ex && *only == ""
 	if ex {
 		co.extra["x_universe"] = "sys: all system calls of the table x 16 flag sets (block-trigger calls: the node's flag set and the refused ones); native: all methods (latest hard-fork set) x 16 flag sets x {called by the entry script, called by a contract}; " +
-			"selfcall: {before, after Domovoi} x {narrow->wide, wide->narrow permissions} x {no change, update self, destroy self, deploy the callee} x {System.Contract.Call, CALLT} x {permitted, not permitted, safe method}; nativest: every native method on the Policy fee whitelist (fee 0 / 7; called by entry and by a contract) and every method of every older hard-fork table on a chain staged through the hard-forks, under the flag sets that discriminate its gate (thorough: all 16); the proxy's system-call methods whitelisted; calls into a blocked contract; callback: 8 native->contract callback paths (GAS/NEO transfer, vote, blockAccount, destroy, deploy, update, Notary deposit) x 4 capability probes x 16 flag sets; chain: all chains of length 0 and 1 (16 x 3 hop kinds x 16 x 5 finals); callt: 16 frame flag sets x 16 token flag sets x 6 final methods through the CALLT opcode, and 5 restricted-permission CALLT callers x 6 methods; perm1: 6 descriptors x 5 method lists x 12 callees x 3 methods; permitem: the 30 permissions' real stack items; permstored: 30 permissions x 12 callees x 4 methods x 3 stored forms; permcall: 30 single-permission deployed callers x 3 deployed callees x 4 methods, before and after a node restart over the same LevelDB; " +
+			"overload: callees with m/1 and m/2 (one safe, one not, both ABI orders) x 3 capability probes x overload called x {Contract.Call, CALLT} x caller permission {none, wildcard, explicit} x 4 flag sets; selfcall: {before, after Domovoi} x {narrow->wide, wide->narrow permissions} x {no change, update self, destroy self, deploy the callee} x {System.Contract.Call, CALLT} x {permitted, not permitted, safe method}; nativest: every native method on the Policy fee whitelist (fee 0 / 7; called by entry and by a contract) and every method of every older hard-fork table on a chain staged through the hard-forks, under the flag sets that discriminate its gate (thorough: all 16); the proxy's system-call methods whitelisted; calls into a blocked contract; callback: 8 native->contract callback paths (GAS/NEO transfer, vote, blockAccount, destroy, deploy, update, Notary deposit) x 4 capability probes x 16 flag sets; chain: all chains of length 0 and 1 (16 x 3 hop kinds x 16 x 5 finals); callt: 16 frame flag sets x 16 token flag sets x 6 final methods through the CALLT opcode, and 5 restricted-permission CALLT callers x 6 methods; perm1: 6 descriptors x 5 method lists x 12 callees x 3 methods; permitem: the 30 permissions' real stack items; permstored: 30 permissions x 12 callees x 4 methods x 3 stored forms; permcall: 30 single-permission deployed callers x 3 deployed callees x 4 methods, before and after a node restart over the same LevelDB; " +
 			"thorough adds chains of length 2 over 6 flag sets and all pairs of permissions with distinct descriptors"
 	}
 	co.extra["x_witnessed"] = c16Witnessed(co)
